@@ -166,7 +166,7 @@ fn exec(scn: &Scn, ctx: &mut Ctx) -> Verdict {
     let is_ctr = scn.mode.starts_with("ctr");
     let only = scn.num("only") as usize;
     let base = scn.mode.split('.').next().unwrap_or("").to_string();
-    let has_partner = fam == FAM_BLOCK;
+    let has_partner = fam == FAM_BLOCK || fam == FAM_BUF;
     let partner_mode = if scn.mode.ends_with("enc") { scn.mode.replace("enc", "dec") } else { scn.mode.replace("dec", "enc") };
 
     let mut k = 0usize;
